@@ -89,7 +89,7 @@ namespace trompeloeil {
     }
     ~sequence() { if (obj) obj->close(); }
     sequence_type& operator*() { return *obj; }
-    bool is_completed() const { return obj->is_completed(); }
+    bool is_completed() const { auto lock = get_lock(); return obj->is_completed(); }
   private:
     friend class sequence_matcher;
     // shared with the expectations that name the sequence, so that they
